@@ -457,7 +457,7 @@ func runProd(sc *prodScenario, rng *rand.Rand) *prodResult {
 				Until: func() bool { return atomic.LoadInt64(addedPer[key]) >= target }}
 		}
 		if r != nil {
-			sink.rules = append(sink.rules, r)
+			sink.addRule(r)
 			res.rules = append(res.rules, r)
 		}
 	}
